@@ -610,6 +610,21 @@ pub fn generate(w: &mut dyn Write, seed: u64, thorough: bool) {
                 crate::emit_case(w, &a, exec);
             }
         }
+        // replies of two server sessions interleaved (a restarted server, late packets of the old one): the client session has ONE
+        // window; an id accepted once is not accepted again whichever server session a later datagram names
+        if is22 {
+            for k in 0..(if thorough { 12 } else { 3 }) {
+                let (sa, sb) = (rng.next(), rng.next());
+                let seq: Vec<(u64, u64)> = match k {
+                    0 => vec![(sa, 5), (sb, 1), (sa, 5), (sa, 6), (sb, 1), (sb, 7), (sa, 6)],
+                    1 => vec![(sa, 100), (sa, 101), (sb, 1), (sa, 100), (sb, 2), (sa, 101), (sb, 1)],
+                    _ => (0..14).map(|_| (if rng.below(2) == 0 { sa } else { sb }, 1 + rng.below(6))).collect(),
+                };
+                let ops: Vec<String> = seq.iter().enumerate().map(|(j, &(ss, id))| format!("D{}", hex(&mk(&mut rng, ss, id, j as u8)))).collect();
+                let a: Vec<String> = vec!["ssudp".into(), "dg".into(), kname.into(), hex(&skey), "-".into(), "1".into(), now.to_string(), ops.join(";")];
+                crate::emit_case(w, &a, exec);
+            }
+        }
         // the end of the packet id space: the last ids are used once each, then the session refuses to send (no wrap-around to ids already used)
         for start in [u64::MAX - 3, u64::MAX - 1, u64::MAX] {
             let mut ops: Vec<String> = vec!["E4:7f000001:80,aa".into(), format!("P{:x}", start)];
